@@ -2,6 +2,7 @@ package c20
 
 import (
 	"fmt"
+	"math"
 	"reflect"
 	"regexp"
 	"strconv"
@@ -187,7 +188,7 @@ var (
 		{Form: "prod", Kinds: []reflect.Kind{reflect.Int, reflect.Int}},
 	}
 	kindTable  = []reflect.Kind{reflect.Int, reflect.String, reflect.Struct, reflect.Ptr, reflect.Float64, reflect.Slice, reflect.Bool, reflect.Map}
-	equalTable = []interface{}{42, "ccc", nil, S{1}, ptrS, "world", 3.5, true}
+	equalTable = []interface{}{42, "ccc", nil, S{1}, ptrS, "world", 3.5, true, 0.0}
 	regexTable = []string{"c+", "^w", "^$", "T$", ".*"}
 
 	patternKinds = []string{"Kind", "Equal", "Regex", "SumType", "Otherwise"}
@@ -221,6 +222,10 @@ func probes() []probe {
 		add("42", "int", 42)
 		add("0", "int", 0)
 		add("3.5", "float", 3.5)
+		// two values that are == and still distinguishable: the effect receives the matched value, not the
+		// pattern's own
+		add("0.0", "float", 0.0)
+		add("-0.0", "float", math.Copysign(0, -1))
 		add(`"ccc"`, "string", "ccc")
 		add(`"world"`, "string", "world")
 		add(`"TEST"`, "string", "TEST")
@@ -296,6 +301,10 @@ type matchCase struct {
 	// NilEffect: the effects return nil (an effect used for its side effect, or identity on a nil
 	// probe): a nil result is still the result of the accepting pattern, not "no match"
 	NilEffect bool `json:"nilEffect,omitempty"`
+	// PanicEffect: the effects panic (with a value of their own). The effect of the first accepting pattern
+	// is still the only one applied, and what comes out is that effect's panic - not a later pattern's
+	// result, not "Cannot match" (a pattern did accept)
+	PanicEffect bool `json:"panicEffect,omitempty"`
 	// readable rendering, ignored on replay
 	Readable string `json:"readable,omitempty"`
 }
@@ -307,6 +316,9 @@ func (c matchCase) compact() string {
 	b = strconv.AppendInt(b, int64(c.API), 10)
 	if c.NilEffect {
 		b = append(b, "|nilEffect"...)
+	}
+	if c.PanicEffect {
+		b = append(b, "|panicEffect"...)
 	}
 	b = append(b, '|')
 	if c.Probe >= 0 && c.Probe < len(probes()) {
@@ -419,6 +431,9 @@ func sameArg(arg interface{}, pr probe) bool {
 	if ta != tb {
 		return false
 	}
+	if fa, ok := arg.(float64); ok {
+		return math.Float64bits(fa) == math.Float64bits(pr.val.(float64))
+	}
 	if ta.Comparable() {
 		return arg == pr.val
 	}
@@ -431,6 +446,8 @@ func outcomeName(c matchCase, i int) string {
 	}
 	return fmt.Sprintf("#%d %s", i, c.Pats[i])
 }
+
+type effectPanic struct{ idx int }
 
 func runMatch(c matchCase) (o outcome) {
 	ps := probes()
@@ -470,6 +487,9 @@ func runMatch(c matchCase) (o outcome) {
 		i := i
 		eff := func(x interface{}) interface{} {
 			calls = append(calls, call{i, x})
+			if c.PanicEffect {
+				panic(effectPanic{i})
+			}
 			if c.NilEffect {
 				return nil
 			}
@@ -509,6 +529,19 @@ func runMatch(c matchCase) (o outcome) {
 			}
 		}
 		return strings.Join(parts, " or ")
+	}
+	if ep, isEffect := pv.(effectPanic); c.PanicEffect && (isEffect || len(calls) > 0) {
+		switch {
+		case len(calls) != 1:
+			fail("effects-run", "%s with panicking effects ran %d effects (%v), want exactly one: the first accepting pattern's", c, len(calls), calls)
+		case !ok[calls[0].idx]:
+			fail("wrong-pattern:"+c.Pats[calls[0].idx].Kind+":probe="+pr.class, "%s answered through %s, want %s", c, outcomeName(c, calls[0].idx), wantNames())
+		case !isEffect || ep.idx != calls[0].idx:
+			fail("effect-panic-lost", "%s: the effect of %s (the first accepting pattern) panicked; the call came back with result %v / panic %v instead of that panic", c, outcomeName(c, calls[0].idx), res, pv)
+		case !sameArg(calls[0].arg, pr):
+			fail("effect-argument:probe="+pr.class, "%s: the effect of %s received %#v (%T), want the matched value %s", c, outcomeName(c, calls[0].idx), calls[0].arg, calls[0].arg, pr.name)
+		}
+		return
 	}
 	if pv != nil {
 		if !ok[-1] {
@@ -622,7 +655,7 @@ func paramConfigs() [][4]int {
 	// patterns accept the same probe (e.g. Kind(String)+Equal("ccc")+Regex(c+))
 	return [][4]int{
 		{0, 0, 0, 0}, {1, 1, 0, 5}, {2, 3, 1, 2}, {3, 4, 2, 3}, {4, 6, 3, 7}, {5, 2, 4, 4}, {6, 7, 4, 6},
-		{1, 5, 1, 8}, {0, 2, 2, 1}, {3, 3, 3, 9}, {2, 4, 0, 0}, {1, 0, 4, 5}, {7, 2, 0, 4}, {5, 2, 1, 0},
+		{1, 5, 1, 8}, {0, 2, 2, 1}, {3, 3, 3, 9}, {2, 4, 0, 0}, {1, 0, 4, 5}, {7, 2, 0, 4}, {5, 2, 1, 0}, {4, 8, 3, 7},
 	}
 }
 
@@ -670,7 +703,7 @@ func TestMatchExhaustive(t *testing.T) {
 				}
 			}
 			for pi := range ps {
-				c := matchCase{Pats: pats, Probe: pi, API: int(idx+int64(pi)) % 2, NilEffect: (idx+int64(pi))%5 == 3}
+				c := matchCase{Pats: pats, Probe: pi, API: int(idx+int64(pi)) % 2, NilEffect: (idx+int64(pi))%5 == 3, PanicEffect: (idx+int64(pi))%7 == 4}
 				s.Eval("match-exhaustive")
 				o := runMatch(c)
 				if o.nontrivial {
@@ -715,7 +748,7 @@ func usesParams(list []string) bool {
 
 func propMatch(t *rapid.T) {
 	n := rapid.IntRange(0, 7).Draw(t, "npatterns")
-	c := matchCase{API: rapid.IntRange(0, 1).Draw(t, "api"), NilEffect: rapid.IntRange(0, 3).Draw(t, "nilEffect") == 0}
+	c := matchCase{API: rapid.IntRange(0, 1).Draw(t, "api"), NilEffect: rapid.IntRange(0, 3).Draw(t, "nilEffect") == 0, PanicEffect: rapid.IntRange(0, 4).Draw(t, "panicEffect") == 0}
 	for i := 0; i < n; i++ {
 		k := rapid.SampledFrom(patternKinds).Draw(t, "kind")
 		c.Pats = append(c.Pats, patSpec{Kind: k, Param: rapid.IntRange(0, paramCount(k)-1).Draw(t, "param")})
